@@ -56,6 +56,10 @@ pub enum VerifEvent {
 		seq: u64,
 		ok: bool,
 	},
+	/// the conflict stamps of the batch starting at `seq` were rolled back after its apply failed
+	RolledBack {
+		seq: u64,
+	},
 	/// `visible_seq_num` advanced (or was found already advanced) to cover the batch starting at `seq`
 	Published {
 		seq: u64,
